@@ -36,6 +36,9 @@ ENVS = [
     Env(10, 5, 30, 45, None, (30, 45)),    # 4 size of 0, ioctl path -> (3, 9); swapped (4, 6)
     Env(10, 5, 0, 0, (3, 7), (30, 40)),    # 5 size of 0, terminal reports the cell size itself: (3, 7)
     Env(8, 4, 0, 0, None, None),           # 6 size of 3, nothing known: None (auto cell ratio unsupported)
+    Env(10, 4, 40, 44, None, (40, 44)),    # 7 size of 2 with other pixels (ioctl) -> (4, 11); swapped (4, 10):
+                                           #   2 -> (0 with queries disabled: nothing determined) -> 7 is a change of
+                                           #   the size in cells that a one-entry cache left un-updated would miss
 ]
 
 FACTS = dict(name=("kitty", "0.30.1"), fg=(255, 255, 255), bg=(0, 0, 0))
